@@ -83,7 +83,6 @@ int main(void) {
     __CPROVER_assert(n_onreq == 1 && onreq_request == parser_obj + OFF_RequestParser_request, "a complete request is handed to the handler exactly once");
     __CPROVER_assert(n_send == 0, "the framework itself answers nothing for a complete request");
     __CPROVER_assert(n_reset >= 1 && seq_reset_first > seq_onreq, "the parser is reset after the request has been handed over: the next request starts fresh");
-    __CPROVER_assert(n_added == 1 && (has_conn ? added_control == *(u32*)(conn_hdr + OFF_Connection_control) : 1), "the response gets exactly one Connection header (the request's when it has one)");
   } else {
     u32 want = !feed_ok ? 413u : parse_mode == 2 ? err_code : 500u;
     __CPROVER_assert(n_onreq == 0, "a refused or malformed request never reaches the handler");
